@@ -12,7 +12,7 @@ from typing import (
     Union,
 )
 
-from numpy import copyto, empty_like, logical_not, ndarray
+from numpy import copyto, empty_like, ndarray, where, zeros
 
 from mygrad._utils import WeakRefIterable
 from mygrad.operation_base import Operation
@@ -285,7 +285,8 @@ class UnView(Operation):
             assert grad_view.shape == self.variables[1].shape
             # check that grad_view shares memory with grad
             assert grad_view.base is grad
-            grad_view *= 0
+            # assign rather than scale: 0 * nan (or inf) is nan
+            grad_view[...] = 0
 
             return grad
 
@@ -338,6 +339,7 @@ class ApplyMask(Operation):
         if index == 0:
             return grad
         elif index == 1:
-            return grad * logical_not(self._mask)
+            # select rather than scale: 0 * nan (or inf) is nan
+            return where(self._mask, zeros((), dtype=grad.dtype), grad)
         else:  # pragma: no cover
             raise ValueError(f"UnView: backward_var index: {index}")
